@@ -1571,8 +1571,13 @@ impl<'l> CelCompiler<'l> {
         let r = i.run_raw(&bc, true);
 
         match r {
-            Ok(v) => CompiledProg::new(NodeValue::ConstExpr(v), details),
-            Err(_) => CompiledProg::new(NodeValue::Bytecode(bc.into()), details),
+            // a run that met a name the compile-time bindings do not know (a macro such as
+            // has() in method position, a loop variable named like a function) says nothing
+            // about the run with the caller's bindings
+            Ok(v) if !i.met_unresolved_name() => {
+                CompiledProg::new(NodeValue::ConstExpr(v), details)
+            }
+            _ => CompiledProg::new(NodeValue::Bytecode(bc.into()), details),
         }
     }
 }
